@@ -3,7 +3,6 @@ package procsim
 import (
 	"bytes"
 	"crypto/tls"
-	"errors"
 	"fmt"
 	"net"
 	"regexp"
@@ -14,71 +13,48 @@ import (
 // Tokens the harness itself pushes through an attached shell, so that
 // "attached" is observed without reading any of the program's wording.
 const (
-	outToken = "procsim-shell-output-token"
-	inToken  = "procsim-shell-input-token"
+	outToken   = "procsim-shell-output-token"
+	inToken    = "procsim-shell-input-token"
+	halfToken  = "procsim-half-attached-input-token"
+	wrongToken = "procsim-wrong-id-output-token"
+	lateToken  = "procsim-straggler-output-token"
 )
 
 // loopbackAddr finds the address the program listens on: it was told
 // 127.0.0.1:0, so the only 127.0.0.1:<port> it shows is its own.
 var loopbackAddr = regexp.MustCompile(`127\.0\.0\.1:([0-9]{1,5})`)
 
-// shellClient is a minimal implant: one TLS connection streaming the shell's
-// input (GET /i/x) and one carrying its output as a chunked body (PUT /o/x).
-type shellClient struct {
-	in, out *tls.Conn
+// stream is one TLS connection to the program (handshake completed) whose
+// incoming bytes are collected in the background.
+type stream struct {
+	conn *tls.Conn
+	poke chan struct{} // shared: poked on every event of any stream
 
 	closeOnce sync.Once
-
-	mu    sync.Mutex
-	got   []byte
-	poke  chan struct{}
-	rdErr error
+	mu        sync.Mutex
+	got       []byte
+	eof       bool
 }
 
-func dialTLS(addr string) (*tls.Conn, error) {
-	return tls.DialWithDialer(&net.Dialer{Timeout: 10 * time.Second}, "tcp", addr,
+func dialStream(addr string, poke chan struct{}) (*stream, error) {
+	c, err := tls.DialWithDialer(&net.Dialer{Timeout: 10 * time.Second}, "tcp", addr,
 		&tls.Config{InsecureSkipVerify: true})
-}
-
-// attach connects both sides concurrently.
-func attach(addr string) (*shellClient, error) {
-	c := &shellClient{poke: make(chan struct{}, 1)}
-	var wg sync.WaitGroup
-	var errIn, errOut error
-	wg.Add(2)
-	go func() {
-		defer wg.Done()
-		if c.in, errIn = dialTLS(addr); errIn != nil {
-			return
-		}
-		_, errIn = fmt.Fprintf(c.in, "GET /i/x HTTP/1.1\r\nHost: %s\r\nUser-Agent: procsim\r\n\r\n", addr)
-	}()
-	go func() {
-		defer wg.Done()
-		if c.out, errOut = dialTLS(addr); errOut != nil {
-			return
-		}
-		line := outToken + "\n"
-		_, errOut = fmt.Fprintf(c.out, "PUT /o/x HTTP/1.1\r\nHost: %s\r\nUser-Agent: procsim\r\n"+
-			"Transfer-Encoding: chunked\r\n\r\n%x\r\n%s\r\n", addr, len(line), line)
-	}()
-	wg.Wait()
-	if err := errors.Join(errIn, errOut); err != nil {
-		c.close()
+	if err != nil {
 		return nil, err
 	}
+	s := &stream{conn: c, poke: poke}
 	go func() {
 		b := make([]byte, 4096)
 		for {
-			n, err := c.in.Read(b)
-			c.mu.Lock()
-			c.got = append(c.got, b[:n]...)
+			n, err := c.Read(b)
+			s.mu.Lock()
+			s.got = append(s.got, b[:n]...)
 			if err != nil {
-				c.rdErr = err
+				s.eof = true
 			}
-			c.mu.Unlock()
+			s.mu.Unlock()
 			select {
-			case c.poke <- struct{}{}:
+			case poke <- struct{}{}:
 			default:
 			}
 			if err != nil {
@@ -86,40 +62,85 @@ func attach(addr string) (*shellClient, error) {
 			}
 		}
 	}()
-	return c, nil
+	return s, nil
 }
 
-// awaitInput waits until the input side has delivered tok.
-func (c *shellClient) awaitInput(tok string, limit time.Duration) error {
-	deadline := time.NewTimer(limit)
-	defer deadline.Stop()
-	for {
-		c.mu.Lock()
-		ok, err := bytes.Contains(c.got, []byte(tok)), c.rdErr
-		c.mu.Unlock()
-		if ok {
-			return nil
-		}
-		if err != nil {
-			return fmt.Errorf("input stream ended before the typed line arrived: %w", err)
-		}
-		select {
-		case <-c.poke:
-		case <-deadline.C:
-			return errors.New("typed line never arrived on the input stream")
-		}
+func (s *stream) write(b string) error {
+	_, err := s.conn.Write([]byte(b))
+	return err
+}
+
+func (s *stream) snapshot() (got []byte, eof bool) {
+	s.mu.Lock()
+	defer s.mu.Unlock()
+	return append([]byte(nil), s.got...), s.eof
+}
+
+func (s *stream) has(tok string) bool {
+	g, _ := s.snapshot()
+	return bytes.Contains(g, []byte(tok))
+}
+
+func (s *stream) close() {
+	if s != nil {
+		s.closeOnce.Do(func() { s.conn.Close() })
 	}
 }
 
-// close ends the shell: the output body is terminated, both connections go.
-func (c *shellClient) close() {
-	c.closeOnce.Do(func() {
-		if c.out != nil {
-			_, _ = c.out.Write([]byte("0\r\n\r\n"))
-			c.out.Close()
+// The requests of a (minimal) implant.
+const endBody = "0\r\n\r\n"
+
+func chunk(s string) string { return fmt.Sprintf("%x\r\n%s\r\n", len(s), s) }
+
+func reqIn(addr, id string) string {
+	return fmt.Sprintf("GET /i/%s HTTP/1.1\r\nHost: %s\r\nUser-Agent: procsim\r\n\r\n", id, addr)
+}
+
+func reqOut(addr, id, tok string) string {
+	return fmt.Sprintf("PUT /o/%s HTTP/1.1\r\nHost: %s\r\nUser-Agent: procsim\r\n"+
+		"Transfer-Encoding: chunked\r\n\r\n", id, addr) + chunk(tok+"\n")
+}
+
+func reqInOut(addr, tok string) string {
+	return fmt.Sprintf("POST /io HTTP/1.1\r\nHost: %s\r\nUser-Agent: procsim\r\n"+
+		"Transfer-Encoding: chunked\r\n\r\n", addr) + chunk(tok+"\n")
+}
+
+// What HTTP itself (not the program's wording) tells about a handler.
+
+// headerDone: the response header has arrived.
+func headerDone(got []byte) bool { return bytes.Contains(got, []byte("\r\n\r\n")) }
+
+// bodyDone: the handler has returned: a complete response without a streamed
+// body, or the end of a streamed (chunked) one.
+func bodyDone(got []byte, eof bool) bool {
+	if eof {
+		return true
+	}
+	i := bytes.Index(got, []byte("\r\n\r\n"))
+	if i < 0 {
+		return false
+	}
+	if !bytes.Contains(bytes.ToLower(got[:i]), []byte("chunked")) {
+		return true
+	}
+	return bytes.HasSuffix(got, []byte("\r\n"+endBody)) || bytes.Equal(got[i+4:], []byte(endBody))
+}
+
+// refusedConnect dials addr until the connection is refused (the listening
+// socket is gone); connections that still get through are dropped at once.
+func refusedConnect(addr string, limit time.Duration) bool {
+	deadline := time.Now().Add(limit)
+	for {
+		c, err := net.DialTimeout("tcp", addr, time.Second)
+		if err == nil {
+			c.Close()
+		} else if isRefused(err) {
+			return true
 		}
-		if c.in != nil {
-			c.in.Close()
+		if time.Now().After(deadline) {
+			return false
 		}
-	})
+		time.Sleep(20 * time.Millisecond)
+	}
 }
